@@ -748,7 +748,17 @@ impl serde::Serialize for GatedBody {
 
 const GATE_LIMIT: usize = 1024;
 
+/// Real threads and real-time watchdogs are involved: a finding must reproduce in a second execution.
 async fn run_gated(kind: Kind, a_notify: bool, refused: bool, b: BMode, order: &[usize]) -> (Bad, u64) {
+    let (bad, flags) = run_gated_once(kind, a_notify, refused, b, order).await;
+    if bad.is_empty() {
+        return (bad, flags);
+    }
+    let (again, _) = run_gated_once(kind, a_notify, refused, b, order).await;
+    (bad.into_iter().filter(|(k, _)| again.iter().any(|(k2, _)| k2 == k)).collect(), flags)
+}
+
+async fn run_gated_once(kind: Kind, a_notify: bool, refused: bool, b: BMode, order: &[usize]) -> (Bad, u64) {
     let mut bad = Bad::new();
     let what = format!("{}: A ({}{}) parked in body serialization, B {b:?}, then A continues, then C; replies in order {order:?}", kind.name(), if a_notify { "notify" } else { "call" }, if refused { ", larger than the assumed peer limit" } else { "" });
     let limits = if refused { Some(repe::WebSocketLimits::unlimited().with_assumed_peer_frame_limit(Some(GATE_LIMIT))) } else { None };
